@@ -1365,7 +1365,7 @@ def json_clone(v):
 
 
 def run(ctx):
-    n = int(os.environ.get("C15_N", "0")) or (3000 if ctx.quick() else 60000)
+    n = int(os.environ.get("C15_N", "0")) or (3000 if ctx.quick() else 45000)
     cases = gen_cases(ctx, n)
     exprs, owner = [], []
     for c in cases:
